@@ -28,6 +28,8 @@ type Case struct {
 	Nested  bool       `json:"nested,omitempty"`
 	ViaVar  bool       `json:"via_var,omitempty"` // the goal reaches the call through a variable bound beforehand
 	Inner   bool       `json:"inner,omitempty"`   // with ViaVar: only the part under the outermost ^ goes through the variable
+	DQ      string     `json:"dq,omitempty"`      // double_quotes value set before loading ("" = default)
+	Assert  bool       `json:"assert,omitempty"`  // the clauses are added by assertz instead of Exec
 }
 
 func (c Case) call() *rt.Term {
@@ -42,7 +44,7 @@ func (c Case) call() *rt.Term {
 }
 
 func (c Case) program() *gen.Program {
-	return &gen.Program{Clauses: c.Clauses, Query: c.call()}
+	return &gen.Program{Clauses: c.Clauses, Query: c.call(), DQ: c.DQ, ViaAssert: c.Assert}
 }
 
 func (c Case) String() string { return c.program().String() }
@@ -169,6 +171,8 @@ func genCase() *rapid.Generator[Case] {
 		}
 		c.Tmpl = tmpls[x.n(0, len(tmpls)-1, "tmpl")]()
 		c.Goal = goal
+		c.DQ = []string{"", "", "", "", "", "", "", "", "", "codes", "atom", "codes"}[x.n(0, 11, "dq")]
+		c.Assert = x.n(0, 5, "assert") == 5
 		c.ViaVar = x.p(30, "viavar")
 		c.Inner = x.p(50, "innerviavar")
 		switch k := x.n(0, 9, "res"); {
